@@ -46,7 +46,7 @@ SHARD = 80
 DRIVER_TIMEOUT = 1500
 COQ_FILES = ["theories/C07/Props.v", "theories/C07/Link.v", "theories/C07/Proofs.v",
              "theories/C07/ProofsA.v", "theories/C07/ProofsB.v", "theories/C07/ProofsC.v", "theories/C07/ProofsD.v",
-             "theories/C07/ProofsE.v", "theories/C07/ProofsF.v", "theories/C07/Explore.v", "theories/C07/Tests.v", "theories/C07/ExploreTests.v"]
+             "theories/C07/ProofsE.v", "theories/C07/ProofsF.v", "theories/C07/ProofsG.v", "theories/C07/Explore.v", "theories/C07/Tests.v", "theories/C07/ExploreTests.v"]
 # ExploreTests.v (exhaustive small-bound explorations, ~40 s) is built but kept out of Props.v's cone
 COQ_TARGETS = ["theories/C07/Props.v", "theories/C07/Link.v", "theories/C07/ExploreTests.v", "theories/C07/Exec.v"]
 RULE = ("scripts for MapReduce/MapReduceChan/MapReduceVoid/ForEach/Finish/FinishVoid: 0-20 items (64 in the big "
@@ -279,6 +279,40 @@ def gen_gate(rng, tier):
                  gate1=g + 1, release=release)
 
 
+def gen_cancel_race(rng, tier):
+    """cancel(err) racing with a reducer write: w workers; items 0..w-1 are mapped (one of them cancels, the others
+    only return after the call), so the dispatcher waits for a pool slot and item w can only be taken by the
+    drain(source) inside cancel; the generator then waits at its gate (before item w+1), i.e. cancel stays inside its
+    drain with done/output still open; an early-stopping reducer waits until item w has been sent and writes its
+    value into exactly that window; the gate opens once that Write has returned. The call must return the cancel error."""
+    w = rng.choice([1, 2, 2, 3])
+    n = w + 1 + rng.randint(1, 3)
+    fn = rng.choice(["MapReduce", "MapReduce", "MapReduceChan"])
+    canc = w - 1                     # the earlier items are dispatched (and parked) before the canceller even starts
+    items = []
+    pre = rng.choice([0, 1, 2])
+    for i in range(n):
+        if i == canc:
+            items.append([_w(j + 1) for j in range(pre)] + [{"op": "cancel", "k": 101}])
+        elif i < w:
+            items.append([{"op": "waitret"}])
+        else:
+            items.append([])
+    # one write only: a second one would race with the close of output right after the gate opens (send_on_closed)
+    rafter = [{"op": "waitsent", "k": w}, _w(7)]
+    c = _case(rng, fn=fn, workers=w, items=items, rtake=0, rafter=rafter, cls="cancel_race",
+              gate1=w + 2, release="rd")
+    # every write that precedes the cancel / the parking must fit: received by the reducer or buffered (cap = w)
+    total = 0
+    for it in c["items"][:w]:
+        for a in it["acts"]:
+            if a["op"] != "write":
+                break
+            total += 1
+    c["rtake"] = rng.randint(max(0, total - w), total)
+    return c
+
+
 def gen_ae(rng, tier):
     """direct stream on errorx.AtomicError: Set of nil / typed nils / pointer / value errors, Load in between"""
     ops = []
@@ -342,8 +376,10 @@ def _generate(rng, tier, n):
             c = gen_panic(rng, tier)
         elif r < 0.82:
             c = gen_ctx(rng, tier)
-        elif r < 0.88:
+        elif r < 0.86:
             c = gen_gate(rng, tier)
+        elif r < 0.88:
+            c = gen_cancel_race(rng, tier)
         elif r < 0.90:
             c = gen_ae(rng, tier)
         elif r < 0.94:
@@ -368,6 +404,8 @@ def search(rng, problems):
     for _ in range(20):
         items = [[{"op": "cancel", "k": 101}], [{"op": "waitret"}], [_w(1)]]
         out.append(_case(rng, workers=3, items=items, rtake=-1, rafter=[_w(7)], cls="search"))
+    for _ in range(25):
+        out.append(gen_cancel_race(rng, "search"))
     for _ in range(20):
         items = [[{"op": "cancel", "k": 101}, _w(1), _w(2)], [_w(1)]]
         out.append(_case(rng, workers=2, items=items, rtake=-1, rafter=[_w(7)], cls="search"))
@@ -495,7 +533,7 @@ def encode(case, obs):
     return "mkcase %s %s %s %s %s %s %s %s %s %s %s %s (%s) %s %s" % (
         cnat(FNS.index(case["fn"])), cZ(case["workers"]), cbool(bool(case.get("noopt"))),
         clist([clist([_mact(a) for a in it["acts"]]) for it in case["items"]]),
-        _optn(case["gpanic"]), _optn(case["rtake"]), clist([_ract(a) for a in case["rafter"] if a["op"] != "sleep"]), cnat(ctx),
+        _optn(case["gpanic"]), _optn(case["rtake"]), clist([_ract(a) for a in case["rafter"] if a["op"] in ("write", "panic")]), cnat(ctx),
         gate, aeops, aeobs,
         clist([_ev(e) for e in obs["trace"]]), _out(obs["outcome"]), cnat(obs["leaked"]), cbool(small))
 
